@@ -262,6 +262,38 @@ def gen_cases(rng, tier):
         cases.append(v2_two_chords_case(rng, i))
     for i in range(48 if tier == 'quick' else 960):
         cases.append(v2_release_same_ms_case(i, tier))
+    # defchords: an undefined set decomposed into defined sub-chords, one of them of two or more keys that contains neither the
+    # first key pressed nor the key whose release ended the chord: its action belongs to ITS keys (up when they are up, not before)
+    dj = 0
+    for T in (60, 150):
+        for order in (('a', 'b', 'c'), ('a', 'c', 'b'), ('d', 'b', 'c'), ('a', 'b', 'c', 'd')):
+            for ending in ('timeout', 'release-first'):
+                cfg = ('(defsrc a b c d)\n(deflayer l0 (chord g a) (chord g b) (chord g c) (chord g d))\n'
+                       '(defchords g %d (a) x (b c) y (a d) z (d) 1)' % T)
+                K = {'a': 30, 'b': 48, 'c': 46, 'd': 32}
+                h = ['t3']
+                for k in order:
+                    h += ['d%d' % K[k], 't4']
+                rest = [k for k in order if k in ('b', 'c')]
+                others = [k for k in order if k not in ('b', 'c')]
+                if ending == 'timeout':
+                    h += ['t%d' % (T + 30)]
+                    for k in rest:
+                        h += ['u%d' % K[k], 't15']
+                    h += ['t60']
+                    for k in others:
+                        h += ['u%d' % K[k], 't15']
+                else:
+                    h += ['u%d' % K[others[0]], 't%d' % (T + 60)]
+                    for k in others[1:]:
+                        h += ['u%d' % K[k], 't15']
+                    h += ['t60']
+                    for k in rest:
+                        h += ['u%d' % K[k], 't15']
+                h += ['t%d' % (T + 100), 'q']
+                cases.append({'id': 'c09-decomp-%d' % dj, 'cfg': cfg, 'hist': h, 'sub': 'ksim',
+                              'tags': {'mode': 'defchords-decomposed-pair', 'ending': ending}})
+                dj += 1
     # more than 16 chords that contain the pressed keys (the candidate list of the implementation holds 16): the chord that is
     # exactly the pressed set, written after them, still fires when the timeout passes or a participant is released
     import itertools
